@@ -27,7 +27,7 @@ RULE = (
     "delimited with large extent, unions) with capacity or extent N = 2**e for every e in 1..63 (thorough: also 2**e-1 and 2**e+1), "
     "built through the constructors (a subset also read from DSDL text); operations: build, min, max, extent, fixed_length, "
     "is_aligned_at_byte of the type and of every field offset (min/max too), == and hash against an independently built twin, != against "
-    "a neighbour capacity, and a sweep of `% d` over d in (3, 5, 7, 9, 12, 24, 40, 64) on one object followed by `% 24` of every field offset. Non-trivial iff e >= 7; distinct by canonical hash of (template, N, operation)"
+    "a neighbour capacity, == against primitives / small literal sets (both operand orders), and a sweep of `% d` over d in (3, 5, 7, 9, 12, 24, 40, 64) on one object followed by `% 24` of every field offset. Non-trivial iff e >= 7; distinct by canonical hash of (template, N, operation)"
 )
 ASSUMPTIONS = [
     "cost is measured in deterministic steps (Python-level loop iterations inside pydsdl/) plus a CPU-time backstop for C-level iterators; this shows boundedness on the enumerated family, not an asymptotic theorem",
@@ -81,6 +81,16 @@ def templates():
     }
 
 
+# definitions given as TEXT: an intrinsic that was evaluated while the definition was still small must not make every later
+# (huge) attribute expensive
+TEXT_TEMPLATES = {
+    "offset-asserted-early": lambda n: {"vns/T.1.0.dsdl": "uint8 header\n@assert _offset_ == {8}\nuint8[<=%d] big\nbool tail\nuint16[%d] more\n@sealed\n" % (n, n)},
+    "offset-printed-early-service": lambda n: {"vns/T.1.0.dsdl": "bool a\n@print _offset_\nuint3[<=%d] big\n@sealed\n---\nuint8 h\n@assert _offset_.max == 8\nvns.E.1.0[<=%d] es\nuint8 z\n@extent %d\n" % (n, n, 64 * n + 64), "vns/E.1.0.dsdl": "uint16[<=2] x\n@sealed\n"},
+    "offset-early-union": lambda n: {"vns/T.1.0.dsdl": "uint8 h\n@assert _offset_ %% 8 == {0}\nvns.U.1.0[%d] us\n@sealed\n" % n, "vns/U.1.0.dsdl": "@union\nuint8[<=3] a\nuint16 b\n@assert _offset_.count >= 1\n@sealed\n"},
+    "extent-intrinsic-of-big-dependency": lambda n: {"vns/T.1.0.dsdl": "vns.B.1.0 b\n@assert vns.B.1.0._extent_ >= 8\n@extent vns.B.1.0._extent_ * 2 + 64\n", "vns/B.1.0.dsdl": "uint8[<=%d] big\nbool[%d] bits\n@sealed\n" % (n, n)},
+}
+
+
 class Counter:
     """Deterministic step counter based on sys.monitoring (Python 3.12)."""
 
@@ -91,6 +101,7 @@ class Counter:
         self.steps = 0
         self.expands = 0
         self.big_sets: list = []
+        self.max_expanded = 0
         self.mon = sys.monitoring
         self.active = False
 
@@ -126,6 +137,8 @@ class Counter:
         def on_return(code, _off, retval):
             if not self._mine(code):
                 return mon.DISABLE
+            if code.co_name == "expand" and code.co_filename.endswith("_symbolic.py") and isinstance(retval, (set, frozenset)):
+                self.max_expanded = max(self.max_expanded, len(retval))
             if code.co_name == "modulo" and code.co_filename.endswith("_symbolic.py") and isinstance(retval, (set, frozenset)):
                 fr = sys._getframe(1)
                 d = fr.f_locals.get("divisor")
@@ -148,6 +161,7 @@ class Counter:
         self.steps = 0
         self.expands = 0
         self.big_sets = []
+        self.max_expanded = 0
 
 
 _counter: Counter | None = None
@@ -166,6 +180,7 @@ def measured(fn):
     with engine.deadline(20):
         out = fn()
     cpu = time.process_time() - t0
+    measured.max_expanded = _counter.max_expanded
     return out, _counter.steps, _counter.expands, list(_counter.big_sets), cpu
 
 
@@ -198,6 +213,20 @@ def operations(desc, other_desc):
     ops.append(("hash", lambda: hash(box["t"]) == hash(box["twin"])))
     ops.append(("inequality", lambda: box["t"] == box["other"]))
 
+    def cross_class():
+        # comparing a type (or its length set) with an object of ANOTHER class / a small literal set is an equality query as well
+        t = box["t"]
+        prims = [pydsdl.BooleanType(), pydsdl.UnsignedIntegerType(8, pydsdl.PrimitiveType.CastMode.SATURATED), pydsdl.VoidType(3), pydsdl.FloatType(32, pydsdl.PrimitiveType.CastMode.SATURATED)]
+        out = []
+        for p in prims:
+            out += [t == p, p == t, t != p, t.bit_length_set == p.bit_length_set, p.bit_length_set == t.bit_length_set]
+            for f in t.fields:
+                out += [f.data_type == p, p == f.data_type, f.data_type.bit_length_set == p.bit_length_set]
+        out += [t.bit_length_set == BitLengthSet(8), BitLengthSet([8, 16]) == t.bit_length_set, t.bit_length_set == BitLengthSet(t.bit_length_set.max) | BitLengthSet(t.bit_length_set.min)]
+        return out
+
+    ops.append(("cross-class-equality", cross_class))
+
     def fields_eq():
         return [a == b for a, b in zip(box["t"].fields, box["twin"].fields)] + [hash(a) == hash(b) for a, b in zip(box["t"].fields, box["twin"].fields)]
 
@@ -220,7 +249,7 @@ def operations(desc, other_desc):
 
 
 def plan(tier):
-    return [{"template": name} for name in templates()] + [{"template": name, "text": True} for name in ("varr-bool", "varr-of-struct", "delimited-extent", "depth3", "four-fields")]
+    return [{"template": name} for name in templates()] + [{"template": name, "text": True} for name in ("varr-bool", "varr-of-struct", "delimited-extent", "depth3", "four-fields")] + [{"template": name, "text": True} for name in TEXT_TEMPLATES]
 
 
 def cases(shard, tier):
@@ -239,7 +268,7 @@ def sizes(tier, e_only=None):
 
 def check_case(case, R: engine.Acc):
     name = case["template"]
-    mk = templates()[name]
+    mk = templates().get(name)
     tier = case.get("tier", "quick")
     baseline: dict = {}
     todo = sizes(tier)
@@ -248,9 +277,15 @@ def check_case(case, R: engine.Acc):
     for e, n in todo:
         if n > 2**63:
             continue
-        desc = mk(n)
-        other = mk(n + 1 if n + 1 < 2**63 else n - 1)
-        if case.get("text"):
+        if name in TEXT_TEMPLATES:
+            ops = [("read-definition", (lambda files=TEXT_TEMPLATES[name](n): api.read_namespace_tree(files, "vns").error))]
+            desc = other = None
+        else:
+            desc = mk(n)
+            other = mk(n + 1 if n + 1 < 2**63 else n - 1)
+        if name in TEXT_TEMPLATES:
+            pass
+        elif case.get("text"):
             ops = [("read-definition", (lambda d=desc: api.read_namespace_tree(T.to_files(d), "vns").error))]
         else:
             ops = operations(desc, other)
@@ -277,6 +312,17 @@ def check_case(case, R: engine.Acc):
                 R.violation("twin-hash-differs", "independently built twins have equal hashes", one, observed=out)
             R.counters["steps_total"] += steps
             R.counters["max_steps"] = max(R.counters["max_steps"], steps)
+            if name in TEXT_TEMPLATES:
+                # an intrinsic evaluated on the still-small definition legitimately expands THAT small set (documented FIXME); what
+                # must not happen is that anything whose size follows the capacity gets enumerated
+                if e <= 8:
+                    baseline["max_expanded"] = max(baseline.get("max_expanded", 0), measured.max_expanded)
+                elif measured.max_expanded > max(64, 2 * baseline.get("max_expanded", 0)):
+                    R.outcome("expanded")
+                    R.violation("numerical-expansion-grows-with-capacity:%s" % opname, "no bit length set whose size follows the capacity is enumerated", one, observed={"largest_expanded_set": measured.max_expanded, "steps": steps}, expected={"largest_for_small_instances": baseline.get("max_expanded")})
+                    failed = True
+                    break
+                expands = 0
             if expands:
                 R.outcome("expanded")
                 R.violation("numerical-expansion-invoked:%s" % opname, "types are analysed symbolically: no numerical expansion", one, observed={"expand_calls": expands, "steps": steps})
